@@ -40,11 +40,18 @@ def r1_acceptance(ctx):
     sf = F.field_index(POP, "stack")
     bad = []
     n = 0
-    cur = 5.0
-    for cand, T, r in itertools.product((4.0, 5.0, 5.5, 50.0), (1e-9, 1.0, 1e9), (0.0, 0.5, 0.999999)):
+    INF = float("inf")
+    # (current, candidate) pairs: better / tie / slightly worse / much worse, a worse-by-a-hair pair near zero, ties and
+    # improvements at infinity; temperatures from a fully cooled system (0, reachable with alpha = 0 or by underflow) over
+    # denormal-small and ordinary to huge ones
+    pairs = [(5.0, 4.0), (5.0, 5.0), (5.0, 5.5), (5.0, 50.0), (0.0, 1e-18), (INF, INF), (INF, 7.0)]
+    temps = (0.0, 1e-300, 1e-17, 1e-9, 1.0, 1e9)
+    for (cur, cand), T, r in itertools.product(pairs, temps, (0.0, 0.5, 0.999999)):
         popsym = Sym("populations", {sf: Sym("stack")})
         table = {"mahf::state::State::populations_mut": popsym, "mahf::state::State::populations": popsym, "mahf::state::State::random_mut": Sym("rng"),
                  "rand::rng::Rng::gen": r,
+                 # `gen_bool(p)` = `gen::<f64>() < p`, and rand panics unless 0 <= p <= 1 (NaN included)
+                 "rand::rng::Rng::gen_bool": (lambda interp, env, f, args, r=r: (lambda p_: "DIVERGE" if not (isinstance(p_, float) and 0.0 <= p_ <= 1.0) else (r < p_))(load(interp, env, args[1]))),
                  # the history behind the scenario: an earlier uphill move was accepted, so the best individual found so far
                  # (3.0) is better than the current solution (5.0); the rule compares against the CURRENT solution
                  "mahf::state::State::best_objective_value": some(Agg("adt", SO, "SingleObjective", [3.0])),
@@ -57,11 +64,17 @@ def r1_acceptance(ctx):
                          "heap": {"bottom": (indiv("b", 9.0),), "current": (indiv("cur", cur),), "candidate": (indiv("cand", cand),)}}
         store.install(it)
         n += 1
-        try:
-            p_acc = math.exp(-(cand - cur) / T)
-        except OverflowError:
-            p_acc = math.inf
-        accept = cand <= cur or r < p_acc
+        # the Metropolis rule: at least as good -> always; worse -> with probability exp(-(cand - cur) / T), which is 0 for a
+        # fully cooled system
+        if cand <= cur:
+            accept = True
+        elif T == 0.0 or cand == INF:
+            accept = False
+        else:
+            try:
+                accept = r < math.exp(-(cand - cur) / T)
+            except OverflowError:
+                accept = True
         for p in it.run():
             ctxs = (cand, cur, T, r)
             if p.end != "return" or not (isinstance(p.ret, Agg) and p.ret.variant == "Ok"):
